@@ -496,6 +496,7 @@ var opKinds = []string{
 	"sleep", "sleep", "cfgkill", "cfgwh",
 	"exit", "killdate", "markdead", "markdead", "markalive", "markalive",
 	"ladd", "ladd", "ladd", "ladd", "ladd", "ladd", "lremove", "lremove", "ledit",
+	"restart", "restart",
 }
 
 func genOps(t *rapid.T, n, nagents int, allowHTTP bool) []Op {
@@ -515,6 +516,7 @@ func genOps(t *rapid.T, n, nagents int, allowHTTP bool) []Op {
 			op.L = &LSpec{Kind: "http", HTTP: genHTTP(t)}
 		case "lremove":
 			op.A = rapid.IntRange(0, 5).Draw(t, "lidx")
+		case "restart":
 		default:
 			op.A = rapid.IntRange(0, nagents-1).Draw(t, "agent")
 		}
@@ -562,6 +564,8 @@ type hsum struct {
 	ledit, lremove, checkin, markalive, lcollide      bool
 	tags                                             map[string]bool
 	craftedLast                                      bool
+	restarts                                         int
+	opsAfterRestart, reregUnrestored, reregRestored, newAfterRestart bool
 	effective                                        int
 }
 
@@ -591,6 +595,9 @@ func summarizeH(h History) hsum {
 	}
 	known := map[int]bool{}
 	parent := map[int]int{}
+	active := map[int]bool{}     // as stored: what a restart would bring back
+	unrestored := map[int]bool{} // registered once, inactive at a restart, therefore unknown to the restarted server
+	everKnown := map[int]bool{}
 	note := func(m Meta) {
 		name := m.Proc
 		if i := strings.LastIndex(name, `\`); i >= 0 {
@@ -648,6 +655,28 @@ func summarizeH(h History) hsum {
 				}
 			}
 			continue
+		case "restart":
+			ok := true
+			for c, p := range parent {
+				if !active[c] || !active[p] {
+					ok = false
+				}
+			}
+			if !ok {
+				continue
+			}
+			s.restarts++
+			for a := range known {
+				if !active[a] {
+					delete(known, a)
+					delete(parent, a)
+					unrestored[a] = true
+				}
+			}
+			continue
+		}
+		if s.restarts > 0 {
+			s.opsAfterRestart = true
 		}
 		if op.A < 0 || op.A >= len(h.Agents) {
 			continue
@@ -655,6 +684,14 @@ func summarizeH(h History) hsum {
 		if op.K == "reg" {
 			if !known[op.A] {
 				known[op.A] = true
+				active[op.A] = true
+				if unrestored[op.A] {
+					s.reregUnrestored = true
+					delete(unrestored, op.A)
+				} else if s.restarts > 0 && !everKnown[op.A] {
+					s.newAfterRestart = true
+				}
+				everKnown[op.A] = true
 				note(h.Agents[op.A].Meta)
 				if h.Agents[op.A].ID >= 1<<31 {
 					s.hiID = true
@@ -688,8 +725,16 @@ func summarizeH(h History) hsum {
 			if anc {
 				continue
 			}
+			active[op.B] = true
 			if !known[op.B] {
 				known[op.B] = true
+				if unrestored[op.B] {
+					s.reregUnrestored = true
+					delete(unrestored, op.B)
+				} else if s.restarts > 0 && !everKnown[op.B] {
+					s.newAfterRestart = true
+				}
+				everKnown[op.B] = true
 				note(h.Agents[op.B].Meta)
 				if h.Agents[op.B].ID >= 1<<31 {
 					s.hiID = true
@@ -700,6 +745,9 @@ func summarizeH(h History) hsum {
 			parent[op.B] = op.A
 			s.linkAdd = true
 		case "disconnect":
+			if op.B >= 0 && op.B < len(h.Agents) && known[op.B] {
+				active[op.B] = false // LinkRemove marks the named session "Disconnected"
+			}
 			if p, ok := parent[op.B]; ok && p == op.A {
 				delete(parent, op.B)
 				s.linkDel = true
@@ -708,6 +756,7 @@ func summarizeH(h History) hsum {
 			if op.M != nil {
 				note(*op.M)
 				s.checkin = true
+				active[op.A] = true // the check-in handler sets Active
 			}
 		case "exit", "killdate", "markdead":
 			s.death = true
@@ -715,14 +764,17 @@ func summarizeH(h History) hsum {
 				s.linkDel = true
 			}
 			delete(parent, op.A)
+			active[op.A] = false
 			for c, p := range parent {
 				if p == op.A {
 					delete(parent, c)
+					active[c] = false
 					s.linkDel = true
 				}
 			}
 		case "markalive":
 			s.markalive = true
+			active[op.A] = true
 		}
 	}
 	return s
@@ -748,6 +800,11 @@ func classifyH(h History) core.Class {
 	add(s.ledit, "listener-edit")
 	add(s.lremove, "listener-removed")
 	add(s.lcollide, "listener-names-colliding")
+	add(s.restarts > 0, "restart-in-the-middle")
+	add(s.restarts > 1, "restarts:2+")
+	add(s.opsAfterRestart, "operations-after-restart")
+	add(s.reregUnrestored, "re-registration-of-unrestored-inactive-id")
+	add(s.newAfterRestart, "new-id-registered-after-restart")
 	for tg := range s.tags {
 		cl.Labels = append(cl.Labels, "upd:"+tg)
 	}
@@ -789,7 +846,7 @@ func classifyH(h History) core.Class {
 	if s.linkDel {
 		link = "add+remove"
 	}
-	cl.Fingerprint = fmt.Sprintf("death=%v|link=%s|num=%s|listeners=%s|edit=%v|hi=%v|collide=%v", s.death, link, s.numClass, strings.Join(lk, "+"), s.ledit, s.hiID, s.lcollide)
+	cl.Fingerprint = fmt.Sprintf("death=%v|link=%s|num=%s|listeners=%s|edit=%v|hi=%v|collide=%v|restart=%v|rereg=%v", s.death, link, s.numClass, strings.Join(lk, "+"), s.ledit, s.hiID, s.lcollide, s.restarts > 0, s.reregUnrestored)
 	return cl
 }
 
@@ -808,7 +865,7 @@ func dedup(in []string) []string {
 func TestC10a(t *testing.T) {
 	core.Run(t, core.Spec[History]{
 		Property: "C10", Sub: "a",
-		Rule: "histories of 1-5 registrations followed by 0-25 operations over 1-5 agents (database file, a third each: fresh / created by the current code and opened again / a copy of the committed testdata/golden-schema.db made by the unchanged tree - labels db:fresh|existed|golden; a violation on the golden file only, while its schema differs from a fresh one, is reported as schema|existing-database-differs-from-fresh|<tables>; ids over the whole 32-bit range incl. >= 2^31; metadata strings from {plain, digit-only, leading zeros, exponent-like, hex-like, whitespace-padded, empty, non-ASCII, quotes/SQL, decimal/signed/huge numbers, 300-9000 bytes}): reg, poll, pivot connect/disconnect, COMMAND_CHECKIN with new metadata and key, sleep / kill-date / working-hours callbacks, exit, kill-date, operator mark dead/alive, listener add (SMB, External; HTTP on an ephemeral port at ~1/20 of adds; names, and a third of the pipe names / endpoints, mostly from one per-history family of strings that differ but collide under ASCII/Unicode case, LIKE/glob wildcards vs literal characters, leading/trailing blanks, prefixes, Unicode normalisation or SQL quoting - label listener-names-colliding = two such listeners coexist) / remove / HTTP edit through the operator's DispatchEvent path; about half of the histories also contain one family of crafted updates of one agent (labels upd:*), mostly as the last operations so that the reopen follows at once: BOUNDARY SHIFT - two consecutive updates (key-preserving check-ins, or sleep callbacks) whose rows differ only by characters/digits moved across the boundary of two columns adjacent in the write order of db.AgentUpdate or in agent.AgentInfo (e.g. Username|DomainName bob|'' -> ''|bob, SleepDelay|SleepJitter 1|20 -> 12|0, ProcessName|BaseAddress svc1|23 -> svc|123), everything else incl. LastCallIn byte-identical; SWAP of two same-typed columns; NO-OP update(s) followed by a real one; REVERT A->B->A; each optionally interleaved with repeated identical updates; then a fresh db.DatabaseNew on the same file read with AgentAll/ParentOf/LinksOf/ListenerAll. Oracle: restored agents == active sessions of the running server, 25 columns equal byte for byte incl. key and IV; ParentOf/LinksOf == the server's Links lists; listener rows == listeners present with every operator-configured field equal. Non-trivial: a death, a link change or a numeric-looking string before the reopen; distinct = (death, link none/add/add+remove, numeric class, listener kinds, edit, id>=2^31)",
+		Rule: "histories of 1-5 registrations followed by 0-25 operations over 1-5 agents (database file, a third each: fresh / created by the current code and opened again / a copy of the committed testdata/golden-schema.db made by the unchanged tree - labels db:fresh|existed|golden; a violation on the golden file only, while its schema differs from a fresh one, is reported as schema|existing-database-differs-from-fresh|<tables>; ids over the whole 32-bit range incl. >= 2^31; metadata strings from {plain, digit-only, leading zeros, exponent-like, hex-like, whitespace-padded, empty, non-ASCII, quotes/SQL, decimal/signed/huge numbers, 300-9000 bytes}): reg, poll, pivot connect/disconnect, COMMAND_CHECKIN with new metadata and key, sleep / kill-date / working-hours callbacks, exit, kill-date, operator mark dead/alive, listener add (SMB, External; HTTP on an ephemeral port at ~1/20 of adds; names, and a third of the pipe names / endpoints, mostly from one per-history family of strings that differ but collide under ASCII/Unicode case, LIKE/glob wildcards vs literal characters, leading/trailing blanks, prefixes, Unicode normalisation or SQL quoting - label listener-names-colliding = two such listeners coexist) / remove / HTTP edit through the operator's DispatchEvent path; about half of the histories also contain one family of crafted updates of one agent (labels upd:*), mostly as the last operations so that the reopen follows at once: BOUNDARY SHIFT - two consecutive updates (key-preserving check-ins, or sleep callbacks) whose rows differ only by characters/digits moved across the boundary of two columns adjacent in the write order of db.AgentUpdate or in agent.AgentInfo (e.g. Username|DomainName bob|'' -> ''|bob, SleepDelay|SleepJitter 1|20 -> 12|0, ProcessName|BaseAddress svc1|23 -> svc|123), everything else incl. LastCallIn byte-identical; SWAP of two same-typed columns; NO-OP update(s) followed by a real one; REVERT A->B->A; each optionally interleaved with repeated identical updates; RESTART operations in the middle (a new Teamserver on the same file restores sessions, links and listeners as Start() does - in (a)/(b) a transcription of its restore loops, in (c) the real Start() in a new process - then the history goes on with registrations of new ids, of restored ids and of ids that were NOT restored because they were inactive, updates, deaths, marks, link and listener changes; several restarts allowed; only performed while every stored link joins two active sessions; labels restart-in-the-middle, restarts:2+, operations-after-restart, re-registration-of-unrestored-inactive-id, new-id-registered-after-restart); then a fresh db.DatabaseNew on the same file read with AgentAll/ParentOf/LinksOf/ListenerAll. Oracle: restored agents == active sessions of the running server, 25 columns equal byte for byte incl. key and IV; ParentOf/LinksOf == the server's Links lists; listener rows == listeners present with every operator-configured field equal. Non-trivial: a death, a link change or a numeric-looking string before the reopen; distinct = (death, link none/add/add+remove, numeric class, listener kinds, edit, id>=2^31)",
 		Gen:   genA, Check: checkA, Classify: classifyH,
 		Assumptions: []string{
 			"reference for 'what had happened' is the state the running server holds in memory when the last operation returned; callbacks are delivered through agent.TaskDispatch, registrations and polls through handlers.(*External).Request",
